@@ -1355,11 +1355,20 @@ def inplace_binop(eng, op, cur, val):
 
 def concat_lists(eng, a, b):
     """list + list where at least one side has symbolic length."""
+    other = {id(a): b, id(b): a}
+
     def view(p):
         if p.items is not None:
             items = p.items
             ks = [kind_of(x) for x in items]
             if any(k is None for k in ks):
+                o = other[id(p)]
+                if o.items is None and not o.tup and o.kinds == ["ref"]:
+                    # concrete strings / object handles next to a symbolic list of references: stored under the other side's element protocol
+                    from . import strmodel
+
+                    ids = [Sym(strmodel.elem_id(eng, x, "ref", o.proto), "ref") for x in items]
+                    return len(ids), ["ref"] * len(ids), (lambda i, k: _ite_chain(ids, i, k))
                 raise Unsupported("concatenation with a list of non-scalars")
             return len(items), ks, (lambda i, k: _ite_chain(items, i, k))
         if p.tup:
@@ -1376,6 +1385,9 @@ def concat_lists(eng, a, b):
     out.items, out.kinds, out.tup = None, [k], False
     out.cols = [z3.Lambda([i], z3.If(i < naz, ga(i, k), gb(i - naz, k)))]
     out.n = z3.simplify(naz + zint(nb))
+    protos = [p.proto for p in (a, b) if p.items is None and p.proto is not None]
+    if protos and all(q is protos[0] for q in protos):
+        out.proto = protos[0]
     return out
 
 
